@@ -1,6 +1,7 @@
 CONSTANTS
   MainProg <- MCMain
   NoiseProg <- MCNoise
+  TimeLimit = 1000
 INIT Init
 NEXT Next
 INVARIANTS Reproducible Emit
